@@ -94,7 +94,7 @@ def check_c08(case, ctx):
 @st.composite
 def cases(draw):
     g = draw(gen.games(max_teams=8, max_size=16, allow_zero_sigma=True,
-                       regimes=["corner", "team_corner", "team_corner", "generic", "targeted", "targeted", "near_equal", "identical", "dyadic"],
+                       regimes=["corner", "team_corner", "team_corner", "max_gap", "generic", "targeted", "targeted", "near_equal", "identical", "dyadic"],
                        cfg_kw={"kappa_lo": 1e-12, "tm_relative_kappa": False}))
     cfg, call = g["cfg"], g["call"]
     tau = eff_tau(cfg, call)
